@@ -61,6 +61,39 @@ def run_driver(ctx, sub, args, timeout=1200):
     return json.loads(out[out.rindex("SUMMARY ") + 8:].splitlines()[0])
 
 
+def run_driver_files(ctx, sub, out, files, timeout=1200):
+    """One driver process per vector file, side by side; mismatch lines are concatenated into out,
+    the summaries are added up (class names united)."""
+    b = ctx.go_build("serve")
+    if len(files) == 1:
+        return run_driver(ctx, sub, [out] + files, timeout)
+
+    def one(i):
+        o = "%s.%d" % (out, i)
+        text = ctx.run_driver(b, [sub, o, files[i]], timeout=timeout)
+        if "SUMMARY " not in text:
+            raise verif.Undecided("driver serve %s printed no summary:\n%s" % (sub, text[-2000:]))
+        return o, json.loads(text[text.rindex("SUMMARY ") + 8:].splitlines()[0])
+    with cf.ThreadPoolExecutor(max_workers=len(files)) as ex:
+        parts = list(ex.map(one, range(len(files))))
+    tot, classes = {}, set()
+    with open(out, "w") as fo:
+        for o, summ in parts:
+            fo.write(open(o).read())
+            os.remove(o)
+            classes.update(summ.pop("classes", []))
+            for k, v in summ.items():
+                if isinstance(v, list):
+                    tot[k] = (tot.get(k, []) + v)
+                elif k in ("sessions", "distinct_classes"):
+                    tot[k] = max(tot.get(k, 0), v)
+                else:
+                    tot[k] = tot.get(k, 0) + v
+    if classes:
+        tot["distinct_classes"] = len(classes)
+    return tot
+
+
 def report_grouped(ctx, mismatches, keyfn, whatfn, limit=12):
     """One violation per group of mismatches that share a signature (a defect usually shows
     on hundreds of vectors); the replay object is the first case of the group."""
@@ -82,19 +115,23 @@ def c07_mc_cfg(items, modes='{"plain", "muxreg", "muxunreg"}', length=1):
             + "".join("INVARIANT %s\n" % i for i in C07_INVS) + "CHECK_DEADLOCK FALSE\n")
 
 
-C08_DUMMY = "  C8Inputs = {}\n  C8Progs = {}\n"
+C08_DUMMY = "  C8Inputs = {}\n  C8Progs = {}\n  C8Sess = {}\n"
 
 
-def serve_emit_cfg(tier, which, part=0):
-    return ('CONSTANTS\n  C7Items = {}\n  C7Modes = {"plain"}\n  C7Len = 0\n%s  Tier = "%s"\n  Which = "%s"\n  Part = %d\n'
-            'INIT Init7\nNEXT ENext\n' % (C08_DUMMY, tier, which, part))
+def serve_emit_cfg(tier, which, part=1, nparts=1, seed=1):
+    return ('CONSTANTS\n  C7Items = {}\n  C7Modes = {"plain"}\n  C7Len = 0\n%s  Tier = "%s"\n  Which = "%s"\n  Seed = %d\n  Part = %d\n'
+            '  NParts = %d\nINIT Init7\nNEXT ENext\n' % (C08_DUMMY, tier, which, seed % 1000, part, nparts))
+
+
+def serve_emit_cfgs(ctx, which, nparts):
+    return [serve_emit_cfg(ctx.tier, which, p, nparts, ctx.seed) for p in range(1, nparts + 1)]
 
 
 C08_INVS = ["C08_ElementWindow", "C08_NextStartsAtNext", "C08_FromNormalised", "C08_StreamLevelNeverDelivered",
-            "C08_CloseTagEndsNil", "C08_IsReference"]
+            "C08_CloseTagEndsNil", "C08_LocalCloseIrrelevant", "C08_IsReference"]
 
 
-def c08_mc_cfg(inputs="C8InputsMC", progs="C8ProgsMC"):
-    return ("CONSTANTS\n  C7Items = {}\n  C7Modes = {}\n  C7Len = 0\n  C8Inputs <- %s\n  C8Progs <- %s\n"
-            "INIT Init8\nNEXT Next8\n" % (inputs, progs)
+def c08_mc_cfg(inputs="C8InputsMC", progs="C8ProgsMC", sess="C8SessMC"):
+    return ("CONSTANTS\n  C7Items = {}\n  C7Modes = {}\n  C7Len = 0\n  C8Inputs <- %s\n  C8Progs <- %s\n  C8Sess <- %s\n"
+            "INIT Init8\nNEXT Next8\n" % (inputs, progs, sess)
             + "".join("INVARIANT %s\n" % i for i in C08_INVS) + "CHECK_DEADLOCK FALSE\n")
